@@ -359,11 +359,19 @@ pub fn check_path_step(kind: Kind, pre: &[u8], post: &[u8], op: &PathOp, unwound
 	let mut first_expected: Option<Segs> = None;
 	let mut ambiguous = false;
 	for c in &model.cands {
-		let mut outs = path_outcomes(abs_eff, c, &mop);
+		let mut outs = match path_outcomes(abs_eff, c, &mop) {
+			Some(o) => o,
+			None => {
+				// more open readings than the model tracks: no verdict on this operation
+				stats.hit("model_gave_no_verdict");
+				*model = PathModel::from_text(qp);
+				return Ok(());
+			}
+		};
 		let primary = outs.len().min(1);
 		if follows_auth && pp.is_empty() {
 			// left open: `pop` on the empty path after an authority treated as empty relative
-			for o in path_outcomes(false, c, &mop) {
+			for o in path_outcomes(false, c, &mop).unwrap_or_default() {
 				if !outs.contains(&o) {
 					outs.push(o);
 				}
@@ -414,13 +422,14 @@ pub fn check_path_step(kind: Kind, pre: &[u8], post: &[u8], op: &PathOp, unwound
 
 /// One step of the list model over a set of candidate lists: the outcomes of `mop` on any
 /// candidate that are shield-equivalent to the segment list observed afterwards.
-fn model_next(cands: &[Segs], abs_eff: bool, also_relative: bool, mop: &MPathOp, observed: &Segs) -> Vec<Segs> {
+/// `None`: the model has more open readings than it is willing to track and gives no verdict.
+fn model_next(cands: &[Segs], abs_eff: bool, also_relative: bool, mop: &MPathOp, observed: &Segs) -> Option<Vec<Segs>> {
 	let got = strip(observed).to_vec();
 	let mut next: Vec<Segs> = Vec::new();
 	for c in cands {
-		let mut outs = path_outcomes(abs_eff, c, mop);
+		let mut outs = path_outcomes(abs_eff, c, mop)?;
 		if also_relative {
-			for o in path_outcomes(false, c, mop) {
+			for o in path_outcomes(false, c, mop)? {
 				if !outs.contains(&o) {
 					outs.push(o);
 				}
@@ -433,7 +442,7 @@ fn model_next(cands: &[Segs], abs_eff: bool, also_relative: bool, mop: &MPathOp,
 		}
 	}
 	next.truncate(8);
-	next
+	Some(next)
 }
 
 fn to_mop(op: &PathOp) -> Option<MPathOp<'_>> {
@@ -489,11 +498,11 @@ fn first_unexplained_view(pre_path: &[u8], follows_auth: bool, ops: &[BOp<PathOp
 				if !follows_auth && abs2 != abs {
 					return i;
 				}
-				let next = model_next(&cands, abs || follows_auth, follows_auth && prev.is_empty(), &mop, &segs2);
-				if next.is_empty() {
-					return i;
+				match model_next(&cands, abs || follows_auth, follows_auth && prev.is_empty(), &mop, &segs2) {
+					Some(next) if next.is_empty() => return i,
+					Some(next) => cands = next,
+					None => cands = PathModel::from_text(v).cands,
 				}
-				cands = next;
 			}
 		}
 		prev = v.clone();
